@@ -928,6 +928,44 @@ Proof.
   - right. destruct (id <=? _); [eapply tw_ret_in_close in H; eauto|injection H as <- <-; discriminate].
 Qed.
 
+Definition tw_is_flags (c : tw_call) : Prop := exists b, c = TwCFlags b.
+
+Lemma tw_begin_calls : forall cs i s idx s' p', tw_begin i s cs idx = (s', p') ->
+  exists fl, cs = fl ++ tw_pt_calls p' /\ Forall tw_is_flags fl.
+Proof.
+  induction cs as [|c r IH]; intros i s idx s' p' H; cbn [tw_begin] in H.
+  - injection H as <- <-. exists []. auto.
+  - destruct c; try (injection H as <- <-; exists []; auto).
+    + destruct (tw_is_fsr k && tw_drop s); [|unfold tw_send_begin in H]; injection H as <- <-; exists []; auto.
+    + apply IH in H. destruct H as (fl & -> & Hf). exists (TwCFlags drop :: fl). split; [reflexivity|].
+      constructor; [exists drop; reflexivity|exact Hf].
+    + destruct (Nat.ltb 1 (tw_nprod s)); [|unfold tw_send_begin in H]; injection H as <- <-; exists []; auto.
+Qed.
+
+Lemma tw_ret_calls : forall i s p rc s' p' c r, tw_pt_calls p = c :: r -> tw_ret i s p rc = (s', p') ->
+  exists fl, r = fl ++ tw_pt_calls p' /\ Forall tw_is_flags fl.
+Proof.
+  intros i s p rc s' p' c r Ec H. unfold tw_ret in H. rewrite Ec in H. eapply tw_begin_calls; eauto.
+Qed.
+
+Lemma tw_send_done_calls : forall fx i s p k ok s' p' c r, tw_pt_calls p = c :: r -> tw_send_done fx i s p k ok = (s', p') ->
+  tw_pt_calls p' = tw_pt_calls p \/ (k <> TwKClose /\ exists fl, r = fl ++ tw_pt_calls p' /\ Forall tw_is_flags fl).
+Proof.
+  intros fx i s p k ok s' p' c r Ec H. unfold tw_send_done in H. destruct k as [|id mark|].
+  - right. split; [discriminate|]. eapply tw_ret_calls; eauto.
+  - destruct (id <=? _).
+    + right. split; [discriminate|]. eapply tw_ret_calls; eauto.
+    + injection H as <- <-. left. reflexivity.
+  - destruct (ok || negb fx); [|unfold tw_send_begin in H]; injection H as <- <-; left; reflexivity.
+Qed.
+
+(* which calls a step consumes *)
+Definition tw_consumed (p p1 : tw_pthread) : Prop :=
+  tw_pt_calls p1 = tw_pt_calls p \/
+  (tw_pt_pc p = TwPStart /\ exists fl, tw_pt_calls p = fl ++ tw_pt_calls p1 /\ Forall tw_is_flags fl) \/
+  (exists c r fl, tw_pt_calls p = c :: r /\ r = fl ++ tw_pt_calls p1 /\ Forall tw_is_flags fl /\
+                  (c = TwCClose -> tw_pt_pc p = TwPJoin)).
+
 Definition tw_psum (fx : bool) (s : tw_state) (i : nat) (p : tw_pthread) (s' : tw_state) : Prop :=
   exists s1 p1, s' = tw_setp s1 i p1 /\
     tw_prods s1 = tw_prods s /\ tw_cpc s1 = tw_cpc s /\ tw_held s1 = tw_held s /\ tw_fault s1 = tw_fault s /\
@@ -942,7 +980,8 @@ Definition tw_psum (fx : bool) (s : tw_state) (i : nat) (p : tw_pthread) (s' : t
     (tw_closing_pc (tw_pt_pc p) = true -> (forall r, tw_pt_calls p = TwCClose :: r -> r = []) -> tw_closing_pc (tw_pt_pc p1) = true) /\
     (exists pre, tw_pt_calls p = pre ++ tw_pt_calls p1) /\
     (tw_applied s1 = tw_applied s \/ (exists d, tw_applied s1 = tw_applied s ++ [TwADef i d]) \/
-     (tw_pt_pc p = TwPJoin /\ tw_cpc s = TwCDone /\ tw_applied s1 = tw_applied s ++ [TwAEnd] /\ tw_bpc (tw_pt_pc p1) = true)).
+     (tw_pt_pc p = TwPJoin /\ tw_cpc s = TwCDone /\ tw_applied s1 = tw_applied s ++ [TwAEnd] /\ tw_bpc (tw_pt_pc p1) = true)) /\
+    tw_consumed p p1.
 
 Lemma tw_dpc_noholdsE : forall pc, tw_dpc pc = true -> tw_pholdsE pc = false.
 Proof. intros pc H. apply tw_dpc_noholds in H. tauto. Qed.
@@ -969,12 +1008,12 @@ Proof.
       match goal with |- tw_psum _ _ _ _ (tw_setp ?A _ ?B) => exists A, B end. rewrite Epc. tw_proj.
       repeat (split; [reflexivity|]).
       split; [right; exists c, q1, a; repeat split; auto|].
-      split; [intro Hic; left; exact Hic|]. split; [discriminate|]. split; [exists []; reflexivity|left; reflexivity].
+      split; [intro Hic; left; exact Hic|]. split; [discriminate|]. split; [exists []; reflexivity|]. split; [left; reflexivity|left; reflexivity].
     - apply tw_alloc_none_same in Eal. subst q1. left. injection HS as <-. cbn [fst snd].
       match goal with |- tw_psum _ _ _ _ (tw_setp ?A _ ?B) => exists A, B end. rewrite Epc. tw_proj.
       repeat (split; [reflexivity|]).
       split; [left; split; reflexivity|].
-      split; [intro Hic; left; exact Hic|]. split; [discriminate|]. split; [exists []; reflexivity|left; reflexivity].
+      split; [intro Hic; left; exact Hic|]. split; [discriminate|]. split; [exists []; reflexivity|]. split; [left; reflexivity|left; reflexivity].
     - right. injection HS as <-. eexists; reflexivity. }
   all: tw_pcases HS; try (right; injection HS as <-; eexists; reflexivity).
   all: left.
@@ -1001,8 +1040,27 @@ Proof.
                           | destruct Hp as (r & Er); pose proof (Hlast _ Er); subst r; unfold tw_ret in EX; rewrite Er in EX;
                             cbn [tw_begin] in EX; injection EX as <- <-; reflexivity ]|];
             split; [first [solve [eapply tw_begin_suffix; eauto] | solve [eapply tw_ret_suffix; eauto] | solve [eapply tw_send_done_suffix; eauto]]|];
-            first [left; tw_proj; congruence
-                  |right; right; split; [reflexivity|]; split; [assumption|]; split; [tw_proj; congruence|exact FB]]).
+            split; [first [left; tw_proj; congruence
+                          |right; right; split; [reflexivity|]; split; [assumption|]; split; [tw_proj; congruence|exact FB]]|];
+            unfold tw_consumed; rewrite ?Epc;
+            first [ (* tw_begin from PStart *)
+                    right; left; split; [reflexivity|]; solve [eapply tw_begin_calls; eauto]
+                  | (* a call returns / msg_send returns *)
+                    let c0 := fresh "c0" in let r0 := fresh "r0" in let Ecs := fresh "Ecs" in
+                    destruct (tw_pt_calls p) as [|c0 r0] eqn:Ecs;
+                    [ exfalso; unfold tw_send_head, tw_cont_head in Hp;
+                      repeat match goal with H : exists _, _ |- _ => destruct H | H : _ /\ _ |- _ => destruct H
+                                        | H : match ?k with TwKRet => _ | TwKFlush _ _ => _ | TwKClose => _ end |- _ => destruct k end;
+                      discriminate
+                    | first [ pose proof (tw_ret_calls _ _ _ _ _ _ _ _ Ecs EX) as (fl0 & Efl & Hfl);
+                              right; right; exists c0, r0, fl0; split; [reflexivity|]; split; [exact Efl|]; split; [exact Hfl|]
+                            | pose proof (tw_send_done_calls _ _ _ _ _ _ _ _ _ _ Ecs EX) as [Esame|(Hk & fl0 & Efl & Hfl)];
+                              [left; congruence
+                              |right; right; exists c0, r0, fl0; split; [reflexivity|]; split; [exact Efl|]; split; [exact Hfl|]] ];
+                      intro Ecl; subst c0; try reflexivity; exfalso; unfold tw_send_head, tw_cont_head in Hp;
+                      repeat match goal with H : exists _, _ |- _ => destruct H | H : _ /\ _ |- _ => destruct H
+                                        | H : match ?k with TwKRet => _ | TwKFlush _ _ => _ | TwKClose => _ end |- _ => destruct k end;
+                      congruence ] ]).
   (* direct paths *)
   all: try (injection HS as <-; cbn [fst snd];
             match goal with |- tw_psum _ _ _ _ (tw_setp ?A _ ?B) => exists A, B end; rewrite ?Epc; tw_proj;
@@ -1018,7 +1076,7 @@ Proof.
             split; [cbn [tw_closing_pc tw_sd_k] in *; intros Hcl Hlast;
                     first [discriminate | exact Hcl | reflexivity | destruct (tw_sd_k c); try discriminate; reflexivity]|];
             split; [exists []; reflexivity|];
-            first [left; try (destruct (tw_cpc s)); reflexivity | right; left; eexists; reflexivity]).
+            split; [first [left; try (destruct (tw_cpc s)); reflexivity | right; left; eexists; reflexivity]|left; reflexivity]).
 Qed.
 
 
@@ -1073,7 +1131,7 @@ Proof.
   pose proof (tw_fifo_pstep _ _ _ _ _ _ HF Hn HS) as HF'.
   destruct (tw_pstep_sum _ _ _ _ _ (HH _ _ Hn) HS) as [SUM|(f & ->)].
   2: { destruct HF' as (Hf & _). discriminate. }
-  destruct SUM as (s1 & p1 & -> & Sp & Sc & Sh & Sf & Sfl & Sq & Sa & SE1 & SE2 & (pre & Spre) & Sap).
+  destruct SUM as (s1 & p1 & -> & Sp & Sc & Sh & Sf & Sfl & Sq & Sa & SE1 & SE2 & (pre & Spre) & Sap & Scs).
   (* the stepping thread is not finished *)
   assert (Hnd : tw_pt_pc p <> TwPDone).
   { intro E. rewrite (tw_done_no_step _ _ _ _ E) in HS. discriminate. }
@@ -1253,7 +1311,7 @@ Proof.
   { intro E. rewrite (tw_done_no_step _ _ _ _ E) in HS. discriminate. }
   destruct (tw_pstep_sum _ _ _ _ _ (HH _ _ Hn) HS) as [SUM|(f & ->)].
   2: { destruct HF' as (Hf & _). discriminate. }
-  destruct SUM as (s1 & p1 & -> & Sp & Sc & Sh & Sf & Sfl & Sq & Sa & SE1 & SE2 & (pre & Spre) & Sap).
+  destruct SUM as (s1 & p1 & -> & Sp & Sc & Sh & Sf & Sfl & Sq & Sa & SE1 & SE2 & (pre & Spre) & Sap & Scs).
   intro Hin. tw_proj.
   assert (Hno : ~ In TwAEnd (tw_applied s)).
   { intro Hx. destruct (HJ Hx) as (Hall & _). apply Hnd. eapply Hall; eauto. }
@@ -1470,4 +1528,244 @@ Proof.
     split; [eapply tw_run_reach; [apply tw_reach_init|exact E']|]. clear E E'. split; [apply G; exact C5|exact C1].
   - exists s. split; [exact Hwf|]. split; [exact Hwc|].
     split; [eapply tw_run_reach; [apply tw_reach_init|exact E]|]. clear E E'. split; [apply G; exact C4|exact C0].
+Qed.
+
+(* ---------- second summary of a producer step (event flag, open, origin of the closing phase) ---------- *)
+Definition tw_at_signal (pc : tw_ppc) : bool := match pc with TwPSigSignal _ => true | _ => false end.
+(* a producer that has queued a message and is about to set the event flag *)
+Definition tw_on_way (pc : tw_ppc) : bool := match pc with TwPSendUnlock _ true | TwPSigLock _ => true | _ => false end.
+Definition tw_is_reacq (pc : tw_cctl) : bool := match pc with TwCWaitReacq => true | _ => false end.
+
+Lemma tw_send_done_closing : forall fx i s p k ok s' p', tw_send_done fx i s p k ok = (s', p') ->
+  tw_closing_pc (tw_pt_pc p') = true -> tw_pt_pc p' <> TwPDone -> k = TwKClose /\ (ok = true \/ fx = false).
+Proof.
+  intros fx i s p k ok s' p' H Hcl Hnd. unfold tw_send_done in H. destruct k as [|id mark|].
+  - pose proof (tw_ret_frame _ _ _ _ _ _ H) as (_ & _ & B). exfalso. apply Hnd. apply tw_closing_bpc_done; auto.
+  - destruct (id <=? _).
+    + pose proof (tw_ret_frame _ _ _ _ _ _ H) as (_ & _ & B). exfalso. apply Hnd. apply tw_closing_bpc_done; auto.
+    + injection H as <- <-. discriminate.
+  - split; auto. destruct ok; auto. destruct fx; auto. cbn [orb negb] in H. unfold tw_send_begin in H. injection H as <- <-. discriminate.
+Qed.
+
+Definition tw_psum2 (fx : bool) (s : tw_state) (i : nat) (p : tw_pthread) (s' : tw_state) : Prop :=
+  exists s1 p1, s' = tw_setp s1 i p1 /\ tw_prods s1 = tw_prods s /\
+    tw_signalled s1 = (if tw_at_signal (tw_pt_pc p) && tw_is_reacq (tw_cpc s) then true else tw_signalled s) /\
+    (tw_opened s1 = true \/ (tw_opened s1 = tw_opened s /\ tw_pt_pc p <> TwPStart)) /\
+    (tw_closing_pc (tw_pt_pc p1) = true -> tw_pt_pc p1 <> TwPDone ->
+       tw_closing_pc (tw_pt_pc p) = true \/
+       (exists c, tw_pt_pc p = TwPSendLock c /\ tw_pt_pc p1 = TwPSendUnlock c true /\
+                  tw_accepted s1 = tw_accepted s ++ [(i, tw_pt_idx p, tw_sd_msg c)]) \/ fx = false) /\
+    (forall k, tw_pt_pc p1 = TwPSigUnlock k -> tw_at_signal (tw_pt_pc p) = true) /\
+    (tw_on_way (tw_pt_pc p) = true -> tw_on_way (tw_pt_pc p1) = true \/ tw_flag s1 = true).
+
+Lemma tw_pstep_sum2 : forall fx s i p s', tw_pstep fx s i p = Some s' ->
+  tw_psum2 fx s i p s' \/ (exists f, s' = tw_set_fault s (Some f)).
+Proof.
+  intros fx s i p s' HS. unfold tw_pstep in HS.
+  destruct (tw_pt_pc p) eqn:Epc.
+  7: { (* PSendLock *)
+    destruct (tw_free (tw_mM s)) eqn:Ef; [|discriminate].
+    destruct (alloc_fixed (tw_q s) (len (tw_sd_msg c))) as [[q1 [a|]]|f] eqn:Eal.
+    - destruct (fill_fast q1 a (tw_sd_msg c)) as [q2|f] eqn:Efi; [|right; injection HS as <-; eexists; reflexivity].
+      left. injection HS as <-. cbn [fst snd].
+      match goal with |- tw_psum2 _ _ _ _ (tw_setp ?A _ ?B) => exists A, B end. rewrite Epc. tw_proj.
+      repeat (split; [reflexivity|]). split; [right; split; [reflexivity|discriminate]|].
+      split; [intros _ _; right; left; exists c; repeat split; reflexivity|]. split; discriminate.
+    - left. injection HS as <-. cbn [fst snd].
+      match goal with |- tw_psum2 _ _ _ _ (tw_setp ?A _ ?B) => exists A, B end. rewrite Epc. tw_proj.
+      repeat (split; [reflexivity|]). split; [right; split; [reflexivity|discriminate]|]. split; [discriminate|]. split; discriminate.
+    - right. injection HS as <-. eexists; reflexivity. }
+  all: tw_pcases HS; try (right; injection HS as <-; eexists; reflexivity).
+  all: left.
+  all: try match type of HS with context [if (?j =? 0)%nat then tw_set_opened ?s0 true else ?s0] => destruct (j =? 0)%nat eqn:Ei0 end.
+  all: try (tw_helper HS; injection HS as <-; exists s2, p2; rewrite Epc;
+            pose proof F as F0; tw_use_frame F0;
+            split; [reflexivity|]; split; [tw_proj; congruence|];
+            split; [cbn [tw_at_signal andb]; tw_proj; congruence|];
+            split; [first [left; tw_proj; cbn [orb] in *; congruence | right; split; [tw_proj; congruence|discriminate]]|];
+            split; [intros Hcl Hnd;
+            first [ exfalso; apply Hnd; apply tw_closing_bpc_done; [exact Hcl|exact FB]
+                  | pose proof (tw_send_done_closing _ _ _ _ _ _ _ _ EX Hcl Hnd) as (Hk & [Hok|Hfx]);
+                    [ first [discriminate Hok | left; cbn [tw_closing_pc]; rewrite ?Hk; reflexivity]
+                    | right; right; exact Hfx ] ]|];
+            split; [intros k0 Hk0; rewrite Hk0 in FB; discriminate FB|cbn [tw_on_way]; discriminate]).
+  all: try (injection HS as <-; cbn [fst snd];
+            match goal with |- tw_psum2 _ _ _ _ (tw_setp ?A _ ?B) => exists A, B end; rewrite ?Epc; tw_proj;
+            split; [reflexivity|]; split; [try (destruct (tw_cpc s)); reflexivity|];
+            split; [cbn [tw_at_signal andb tw_is_reacq]; try (destruct (tw_cpc s)); reflexivity|];
+            split; [right; split; [try (destruct (tw_cpc s)); reflexivity|discriminate]|];
+            split; [cbn [tw_closing_pc tw_sd_k] in *; intros Hcl Hnd;
+                    first [discriminate | left; exact Hcl | left; reflexivity]|];
+            split; [intros k0 Hk0; first [discriminate Hk0 | reflexivity]|];
+            cbn [tw_on_way]; intro How; first [discriminate How | left; reflexivity | right; reflexivity]).
+Qed.
+
+(* ---------- no lost wake-up, no deadlock (repaired close) ---------- *)
+Definition tw_cidle (s : tw_state) : bool :=
+  match tw_cpc s with
+  | TwCStart | TwCWaitLock | TwCWaitCond | TwCWaitReacq => true
+  | TwCUnlockM => match tw_held s with None => true | Some _ => false end
+  | _ => false
+  end.
+Definition tw_ends_close (cs : list tw_call) : Prop := exists pre, cs = pre ++ [TwCClose].
+Definition tw_wf_live (progs : list (list tw_call)) : Prop := exists cs rest, progs = cs :: rest /\ tw_ends_close cs.
+
+Definition tw_live_inv (fx : bool) (s : tw_state) : Prop :=
+  (tw_cpc s = TwCWaitCond -> tw_flag s = false) /\
+  (tw_cpc s = TwCWaitReacq -> tw_signalled s = false -> tw_flag s = true ->
+     exists i p, nth_error (tw_prods s) i = Some p /\ tw_at_signal (tw_pt_pc p) = true) /\
+  (tw_cidle s = true -> tw_unprocessed s <> [] ->
+     tw_flag s = true \/ exists i p, nth_error (tw_prods s) i = Some p /\ tw_on_way (tw_pt_pc p) = true) /\
+  (fx = true -> forall i p, nth_error (tw_prods s) i = Some p -> tw_closing_pc (tw_pt_pc p) = true -> tw_pt_pc p <> TwPDone -> tw_has_close s) /\
+  ((exists m, In m (tw_processed s) /\ tw_kind_of m = 0) -> tw_quit s = true) /\
+  (tw_opened s = false -> forall i p, nth_error (tw_prods s) i = Some p -> tw_pt_pc p = TwPStart) /\
+  (exists p0, nth_error (tw_prods s) 0 = Some p0 /\
+     ((tw_pt_pc p0 <> TwPDone /\ tw_ends_close (tw_pt_calls p0)) \/
+      (tw_pt_pc p0 = TwPDone /\ tw_cpc s = TwCDone /\ tw_others_done_p s 0))).
+
+Lemma tw_ends_close_suffix : forall a b, tw_ends_close (a ++ b) -> b <> [] -> tw_ends_close b.
+Proof.
+  intros a b (pre & E) Hb. destruct (exists_last Hb) as (b' & x & ->).
+  rewrite app_assoc in E. apply app_inj_tail in E. destruct E as (_ & ->). exists b'. reflexivity.
+Qed.
+
+Lemma tw_flags_not_close : forall fl, Forall tw_is_flags fl -> ~ tw_ends_close fl.
+Proof.
+  intros fl Hf (pre & E). rewrite E in Hf. apply Forall_app in Hf. destruct Hf as (_ & Hf).
+  inversion Hf as [|? ? (b & Hb) _]. discriminate.
+Qed.
+
+Lemma tw_join_step : forall fx s i p s', tw_pt_pc p = TwPJoin -> tw_pstep fx s i p = Some s' -> tw_cpc s = TwCDone.
+Proof. intros fx s i p s' E H. unfold tw_pstep in H. rewrite E in H. destruct (tw_cpc s); try discriminate. reflexivity. Qed.
+
+Lemma tw_unprocessed_same : forall s s', tw_q s' = tw_q s -> tw_cpc s' = tw_cpc s -> tw_held s' = tw_held s ->
+  tw_unprocessed s' = tw_unprocessed s /\ tw_cidle s' = tw_cidle s.
+Proof. intros s s' E1 E2 E3. unfold tw_unprocessed, tw_cdone, tw_cidle. rewrite E1, E2, E3. auto. Qed.
+
+Lemma tw_has_close_mono : forall s s' x, tw_has_close s -> (tw_accepted s' = tw_accepted s \/ tw_accepted s' = tw_accepted s ++ x) -> tw_has_close s'.
+Proof.
+  intros s s' x (e & Hin & Hk) [E|E]; exists e; rewrite E; auto. split; auto. apply in_or_app. auto.
+Qed.
+
+Lemma tw_live_pstep : forall fx cap s i p s', tw_all_inv cap s -> tw_all_inv cap s' -> tw_live_inv fx s ->
+  nth_error (tw_prods s) i = Some p -> tw_pstep fx s i p = Some s' -> tw_live_inv fx s'.
+Proof.
+  intros fx cap s i p s' HA HA' (W0 & W1 & W2 & J1 & Q2 & O1 & D1) Hn HS.
+  destruct HA as (HL & HF & HH & HW & (K1 & K2 & K3 & K4 & K5) & HJ).
+  destruct HA' as (HL' & HF' & HH' & HW' & HK' & HJ').
+  assert (Hnd : tw_pt_pc p <> TwPDone).
+  { intro E. rewrite (tw_done_no_step _ _ _ _ E) in HS. discriminate. }
+  destruct (tw_pstep_sum _ _ _ _ _ (HH _ _ Hn) HS) as [SUM|(f & ->)].
+  2: { destruct HF' as (Hf & _). discriminate. }
+  destruct (tw_pstep_sum2 _ _ _ _ _ HS) as [SUM2|(f & ->)].
+  2: { destruct HF' as (Hf & _). discriminate. }
+  destruct SUM as (s1 & p1 & Es' & Sp & Sc & Sh & Sf & Sfl & Sq & Sa & SE1 & SE2 & (pre & Spre) & Sap & Scs).
+  destruct SUM2 as (s1' & p1' & Es'' & Sp' & Ssg & Sop & SJ & SU & SW).
+  assert (Hself : nth_error (tw_prods s') i = Some p1).
+  { rewrite Es'. tw_proj. rewrite Sp. eapply tw_nth_upd_eq; eauto. }
+  assert (Hp1 : p1' = p1).
+  { assert (nth_error (tw_prods s') i = Some p1') by (rewrite Es''; tw_proj; rewrite Sp'; eapply tw_nth_upd_eq; eauto). congruence. }
+  subst p1'.
+  assert (Hoth : forall j q, j <> i -> nth_error (tw_prods s') j = Some q -> nth_error (tw_prods s) j = Some q).
+  { intros j q Hne Hq. rewrite Es' in Hq. tw_proj. rewrite Sp in Hq. rewrite tw_nth_upd_neq in Hq by congruence. exact Hq. }
+  assert (Hoth' : forall j q, j <> i -> nth_error (tw_prods s) j = Some q -> nth_error (tw_prods s') j = Some q).
+  { intros j q Hne Hq. rewrite Es'. tw_proj. rewrite Sp. rewrite tw_nth_upd_neq by congruence. exact Hq. }
+  assert (Ecpc : tw_cpc s' = tw_cpc s) by (rewrite Es'; tw_proj; exact Sc).
+  assert (Eheld : tw_held s' = tw_held s) by (rewrite Es'; tw_proj; exact Sh).
+  assert (Eflag : tw_flag s' = (if tw_pholdsE (tw_pt_pc p1) && negb (tw_pholdsE (tw_pt_pc p)) then true else tw_flag s)) by (rewrite Es'; tw_proj; exact Sfl).
+  assert (Esig : tw_signalled s' = (if tw_at_signal (tw_pt_pc p) && tw_is_reacq (tw_cpc s) then true else tw_signalled s)) by (rewrite Es''; tw_proj; exact Ssg).
+  assert (Equit : tw_quit s' = tw_quit s) by (rewrite Es'; tw_proj; exact Sq).
+  assert (Eflag1 : tw_flag s1' = tw_flag s') by (rewrite Es''; reflexivity).
+  assert (Eacc : tw_accepted s' = tw_accepted s \/ tw_accepted s' = tw_accepted s ++ [(i, tw_pt_idx p, match tw_pt_pc p with TwPSendLock c => tw_sd_msg c | _ => [] end)]).
+  { rewrite Es'. tw_proj. destruct Sa as [(_ & Sa)|(c & q1 & a & Epc & _ & _ & _ & Sa & _)]; [left; exact Sa|right; rewrite Sa, Epc; reflexivity]. }
+  assert (Eproc : tw_processed s' = tw_processed s).
+  { unfold tw_processed. rewrite Es'. tw_proj. destruct Sap as [Sap|[(d & Sap)|(_ & _ & Sap & _)]]; rewrite Sap; auto;
+      rewrite tw_msgs_of_app; cbn; rewrite app_nil_r; reflexivity. }
+  (* a thread holding the event mutex excludes the consumer holding it *)
+  assert (HnoE : tw_pholdsE (tw_pt_pc p1) = true -> tw_choldsE (tw_cpc s') = false).
+  { intros Hh. destruct (tw_choldsE (tw_cpc s')) eqn:Ec; auto. exfalso.
+    destruct HL' as (_ & _ & LE). assert (T : TwTProd i = TwTCons); [|discriminate].
+    eapply (tw_LI_excl _ _ _ _ _ _ LE); cbn; eauto. }
+  split; [|split; [|split; [|split; [|split; [|split]]]]].
+  - (* W0 *)
+    intro Ec. rewrite Eflag. destruct (tw_pholdsE (tw_pt_pc p1) && negb (tw_pholdsE (tw_pt_pc p))) eqn:Eh.
+    + apply andb_prop in Eh. destruct Eh as (Eh & _). apply HnoE in Eh. rewrite Ec in Eh. discriminate.
+    + apply W0. congruence.
+  - (* W1 *)
+    intros Ec Es Ef. rewrite Ecpc in Ec. rewrite Esig in Es.
+    assert (Hnas : tw_at_signal (tw_pt_pc p) = false).
+    { destruct (tw_at_signal (tw_pt_pc p)) eqn:E; auto. rewrite Ec in Es. discriminate. }
+    rewrite Hnas in Es. cbn [andb] in Es. rewrite Eflag in Ef.
+    destruct (tw_pholdsE (tw_pt_pc p1) && negb (tw_pholdsE (tw_pt_pc p))) eqn:Eh.
+    + exists i, p1. split; [exact Hself|]. apply andb_prop in Eh. destruct Eh as (Eh1 & Eh2).
+      destruct (tw_pt_pc p1) eqn:E1; try discriminate; auto. rewrite (SU _ eq_refl) in Hnas. discriminate.
+    + destruct (W1 Ec Es Ef) as (j & q & Hq & Hs). destruct (Nat.eq_dec j i) as [->|Hne].
+      * rewrite Hn in Hq. injection Hq as <-. congruence.
+      * exists j, q. split; auto.
+  - (* W2 *)
+    intros Hidle Hun.
+    destruct Sa as [(Sa1 & Sa2)|(c & q1 & a & Epc & _ & _ & _ & _ & Epc1)].
+    + destruct (tw_unprocessed_same s s') as (Eun & Eid); auto; try (rewrite Es'; tw_proj; congruence).
+      rewrite Eun in Hun. rewrite Eid in Hidle. destruct (W2 Hidle Hun) as [Hf|(j & q & Hq & Hw)].
+      * left. rewrite Eflag, Hf. destruct (_ && _); reflexivity.
+      * destruct (Nat.eq_dec j i) as [->|Hne].
+        -- rewrite Hn in Hq. injection Hq as <-. destruct (SW Hw) as [Hw'|Hf'].
+           ++ right. exists i, p1. auto.
+           ++ left. congruence.
+        -- right. exists j, q. auto.
+    + right. exists i, p1. split; [exact Hself|]. rewrite Epc1. reflexivity.
+  - (* J1 *)
+    intros Hfx j q Hq Hcl Hndq. destruct (Nat.eq_dec j i) as [->|Hne].
+    + rewrite Hself in Hq. injection Hq as <-.
+      destruct (SJ Hcl Hndq) as [Hold|[(c & Epc & Epc1 & Eacc1)|Hf]]; [| |congruence].
+      * eapply tw_has_close_mono; [eapply J1; eauto|exact Eacc].
+      * (* the CLOSE message has just been queued *)
+        rewrite Epc1 in Hcl. cbn [tw_closing_pc] in Hcl.
+        pose proof (HH _ _ Hn) as Hhd. unfold tw_head_ok in Hhd. rewrite Epc in Hhd. cbn [tw_pc_head] in Hhd.
+        unfold tw_send_head in Hhd. destruct (tw_sd_k c); try discriminate. destruct Hhd as (_ & Em).
+        exists (i, tw_pt_idx p, tw_sd_msg c). split; [|cbn [snd]; rewrite Em; reflexivity].
+        rewrite Es''. tw_proj. rewrite Eacc1. apply in_or_app. right. left. reflexivity.
+    + eapply tw_has_close_mono; [eapply (J1 Hfx j q); eauto|exact Eacc].
+  - (* Q2 *)
+    rewrite Eproc, Equit. exact Q2.
+  - (* O1 *)
+    intro Hop. exfalso. assert (Eo : tw_opened s' = tw_opened s1') by (rewrite Es''; reflexivity).
+    destruct Sop as [Ho|(Ho & Hps)]; [congruence|]. apply Hps. eapply O1; [congruence|exact Hn].
+  - (* D1 *)
+    destruct D1 as (p0 & Hn0 & D1). destruct (Nat.eq_dec i 0) as [->|Hne].
+    + rewrite Hn in Hn0. injection Hn0 as <-. exists p1. split; [exact Hself|].
+      destruct D1 as [(_ & Hec)|(Hd & _)]; [|contradiction].
+      pose proof (HH' _ _ Hself) as Hhd1. unfold tw_head_ok in Hhd1.
+      assert (Hne1 : tw_pt_calls p1 <> [] -> tw_pt_pc p1 <> TwPDone).
+      { intros Hx Hy. rewrite Hy in Hhd1. cbn in Hhd1. contradiction. }
+      destruct Scs as [Scs|[(Eps & fl & Efl & Hfl)|(c0 & r0 & fl & Ec0 & Er0 & Hfl & Hcl)]].
+      * left. rewrite Scs. split; auto. apply Hne1. rewrite Scs. destruct Hec as (pre0 & ->). destruct pre0; discriminate.
+      * destruct (tw_pt_calls p1) as [|x r] eqn:E1.
+        -- exfalso. rewrite app_nil_r in Efl. rewrite Efl in Hec. eapply tw_flags_not_close; eauto.
+        -- left. split; [apply Hne1; discriminate|]. rewrite Efl in Hec. eapply tw_ends_close_suffix; eauto. discriminate.
+      * destruct (tw_pt_calls p1) as [|x r] eqn:E1.
+        -- (* the last call returned: it is close, the step is the join *)
+           rewrite app_nil_r in Er0. subst r0. rewrite Ec0 in Hec.
+           assert (fl = [] /\ c0 = TwCClose) as (-> & ->).
+           { destruct Hec as (pre0 & Epre). destruct fl as [|f0 fl'] using rev_ind.
+             - destruct pre0 as [|y pre0]; cbn in Epre; [injection Epre as ->; auto|].
+               injection Epre as _ Epre. destruct pre0; discriminate.
+             - exfalso. rewrite app_comm_cons in Epre. apply app_inj_tail in Epre. destruct Epre as (_ & ->).
+               apply Forall_app in Hfl. destruct Hfl as (_ & Hfl). inversion Hfl as [|? ? (b & Hb) _]. discriminate. }
+           pose proof (Hcl eq_refl) as Epj. pose proof (tw_join_step _ _ _ _ _ Epj HS) as Ecd.
+           right. destruct (K4 Ecd) as (Hq & _). destruct (K2 (or_introl Hq)) as (p0' & Hn0' & _ & Ho).
+           assert (Hp1d : tw_pt_pc p1 = TwPDone).
+           { assert (Hc1 : tw_closing_pc (tw_pt_pc p1) = true).
+             { apply SE2; [rewrite Epj; reflexivity|]. intros r Er. rewrite Ec0 in Er. injection Er as <-. reflexivity. }
+             destruct (tw_pt_pc p1); cbn in Hhd1, Hc1; try discriminate; auto;
+               repeat match goal with H : exists _, _ |- _ => destruct H end; try discriminate;
+               unfold tw_send_head, tw_cont_head in *;
+               repeat match goal with H : exists _, _ |- _ => destruct H | H : _ /\ _ |- _ => destruct H
+                                 | H : match ?k with TwKRet => _ | TwKFlush _ _ => _ | TwKClose => _ end |- _ => destruct k end; discriminate. }
+           split; [exact Hp1d|]. split; [congruence|].
+           intros j q Hq' Hnej. apply (Ho j q); auto.
+        -- left. split; [apply Hne1; discriminate|]. rewrite Ec0, Er0 in Hec.
+           change (c0 :: fl ++ x :: r) with ((c0 :: fl) ++ x :: r) in Hec. eapply tw_ends_close_suffix; eauto. discriminate.
+    + exists p0. split; [apply Hoth'; auto|]. destruct D1 as [D1|(Hd & Hcd & Ho)]; [left; exact D1|].
+      exfalso. apply Hnd. eapply Ho; eauto.
 Qed.
